@@ -86,6 +86,16 @@ def clone_value(v):
     return v
 
 
+def unkey(k):
+    """the value a stored map / set key stands for (composite keys are encoded by Interp.key_of)"""
+    if isinstance(k, str) and k.startswith('T\x1f'):
+        out = []
+        for e in k.split('\x1f')[1:]:
+            out.append(Cell(('addr', e[1:]) if e[0] == 'a' else ('int', int(e[1:])) if e[0] == 'i' else ('key', e[1:])))
+        return ('tuple', out)
+    return ('key', k)
+
+
 def mk_option(val):
     if val is None:
         return ('adt', 'core::option::Option', 0, [])
@@ -189,6 +199,9 @@ class Interp:
                     raise Unmodelled('field access into an entry handle')
                 elif v[0] == 'ref' and e['f'] == 0:
                     continue       # Pin<&mut T> is modelled as the reference itself: `.0` (its pointer field) is transparent
+                elif v[0] == 'opaque' and getattr(self, 'opaque_fields', False):
+                    c = Cell(('opaque', '%s.%s' % (v[1], e['f'])))      # (P-TRACE) a field of an unknown value is unknown
+                    continue
                 else:
                     raise Unmodelled('field %s of %r' % (e['f'], v[0]))
                 while len(fields) <= e['f']:
@@ -559,6 +572,22 @@ class Interp:
 
     def key_of(self, v):
         v = self.deref_all(v)
+        if v is not None and v[0] == 'tuple':
+            # a composite key (id, address): encoded so that keys stay hashable and ordered; unkey() rebuilds the tuple
+            enc = []
+            for c in v[1]:
+                x = self.deref_all(c.v)
+                if x is not None and x[0] == 'key' and '\x1f' not in str(x[1]):
+                    enc.append('k' + str(x[1]))
+                elif x is not None and x[0] == 'addr':
+                    enc.append('a' + str(x[1]))
+                elif x is not None and x[0] == 'int' and x[1] is not None:
+                    enc.append('i%d' % x[1])
+                else:
+                    raise Unmodelled('map key is not a symbolic key: %r' % (v,))
+            return 'T\x1f' + '\x1f'.join(enc)
+        if v is not None and v[0] == 'adt' and v[1] == 'alloc::borrow::Cow' and len(v[3]) == 1:
+            return self.key_of(v[3][0].v)
         if v is None or v[0] != 'key':
             raise Unmodelled('map key is not a symbolic key: %r' % (v,))
         return v[1]
@@ -584,6 +613,17 @@ class Interp:
             r = self.order.cmp(a[1], b[1])
             o = ('adt', 'core::cmp::Ordering', {'<': 0, '=': 1, '>': 2}[r], [])
             return o if name.endswith('::cmp') else mk_option(o)
+        if name.startswith('core::cmp::Ordering::') and A:
+            o = self.deref_all(A[0])
+            if o is not None and o[0] == 'adt' and o[1] == 'core::cmp::Ordering':
+                if seg == 'then_with':
+                    return self.call_closure(A[1], [], depth) if o[2] == 1 else o
+                if seg == 'then':
+                    return self.deref_all(A[1]) if o[2] == 1 else o
+                if seg == 'reverse':
+                    return ('adt', 'core::cmp::Ordering', 2 - o[2], [])
+                if seg in ('is_eq', 'is_ne', 'is_lt', 'is_gt', 'is_le', 'is_ge'):
+                    return mk_bool({'is_eq': o[2] == 1, 'is_ne': o[2] != 1, 'is_lt': o[2] == 0, 'is_gt': o[2] == 2, 'is_le': o[2] <= 1, 'is_ge': o[2] >= 1}[seg])
         if name in ('core::cmp::max', 'core::cmp::Ord::max', 'core::cmp::min', 'core::cmp::Ord::min'):
             a, b = A[0], A[1]
             if a[0] not in ('ts', 'dur') or b[0] != a[0]:
@@ -726,6 +766,38 @@ class Interp:
                 return ('int', len(st[1]))
             if seg == 'is_empty':
                 return mk_bool(not st[1])
+            if seg == 'take':
+                k = self.key_of(A[1])
+                had = k in st[1]
+                st[1].discard(k)
+                return mk_option(unkey(k) if had else None)
+            if seg == 'clear':
+                st[1].clear()
+                return UNIT
+            if seg == 'drain':
+                ks = sorted(st[1])
+                st[1].clear()
+                return ('iter', IterObj([unkey(k) for k in ks]))
+            if seg in ('difference', 'intersection', 'union', 'symmetric_difference') and len(A) == 2:
+                ot = self.deref_all(A[1])
+                if ot[0] != 'set':
+                    raise Unmodelled('%s with %s' % (name, ot[0]))
+                a_, b_ = st[1], ot[1]
+                ks = sorted(a_ - b_ if seg == 'difference' else a_ & b_ if seg == 'intersection' else a_ | b_ if seg == 'union' else a_ ^ b_)
+                return ('iter', IterObj([('ref', Cell(unkey(k))) for k in ks]))
+            if seg in ('is_subset', 'is_superset', 'is_disjoint') and len(A) == 2:
+                ot = self.deref_all(A[1])
+                if ot[0] != 'set':
+                    raise Unmodelled('%s with %s' % (name, ot[0]))
+                return mk_bool(st[1] <= ot[1] if seg == 'is_subset' else st[1] >= ot[1] if seg == 'is_superset' else not (st[1] & ot[1]))
+            if seg == 'retain':
+                keep = {k for k in st[1] if self.truthy(self.call_closure(A[1], [('ref', Cell(unkey(k)))], depth))}
+                st[1].intersection_update(keep)
+                return UNIT
+            if seg == 'extend':
+                for x in self.drain(self.as_iter(A[1]), depth):
+                    st[1].add(self.key_of(x))
+                return UNIT
             raise Unmodelled('%s is not modelled' % name)
         # --- Vec / slices / iterators ----------------------------------------------------------------------------
         r = self.model_seq(name, seg, A, depth)
@@ -886,7 +958,7 @@ class Interp:
         if seg == 'get_key_value':
             k = self.key_of(A[1])
             c = m.items.get(k)
-            return mk_option(('tuple', [Cell(('ref', Cell(('key', k)))), Cell(('ref', c))])) if c is not None else mk_option(None)
+            return mk_option(('tuple', [Cell(('ref', Cell(unkey(k)))), Cell(('ref', c))])) if c is not None else mk_option(None)
         if seg == 'contains_key':
             return mk_bool(self.key_of(A[1]) in m.items)
         if seg == 'remove':
@@ -896,7 +968,7 @@ class Interp:
         if seg == 'remove_entry':
             k = self.key_of(A[1])
             c = m.items.pop(k, None)
-            return mk_option(('tuple', [Cell(('key', k)), Cell(c.v)])) if c is not None else mk_option(None)
+            return mk_option(('tuple', [Cell(unkey(k)), Cell(c.v)])) if c is not None else mk_option(None)
         if seg == 'insert':
             k = self.key_of(A[1])
             old = m.items.get(k)
@@ -916,17 +988,17 @@ class Interp:
             m.items.clear()
             return UNIT
         if seg in ('iter', 'iter_mut'):
-            return ('iter', IterObj([('tuple', [Cell(('ref', Cell(('key', k)))), Cell(('ref', c))]) for k, c in self.ordered(m)]))
+            return ('iter', IterObj([('tuple', [Cell(('ref', Cell(unkey(k)))), Cell(('ref', c))]) for k, c in self.ordered(m)]))
         if seg == 'into_iter':
-            its = [('tuple', [Cell(('key', k)), Cell(c.v)]) for k, c in self.ordered(m)]
+            its = [('tuple', [Cell(unkey(k)), Cell(c.v)]) for k, c in self.ordered(m)]
             m.items = {}
             return ('iter', IterObj(its))
         if seg == 'keys':
-            return ('iter', IterObj([('ref', Cell(('key', k))) for k, c in self.ordered(m)]))
+            return ('iter', IterObj([('ref', Cell(unkey(k))) for k, c in self.ordered(m)]))
         if seg in ('values', 'values_mut'):
             return ('iter', IterObj([('ref', c) for k, c in self.ordered(m)]))
         if seg in ('into_keys',):
-            its = [('key', k) for k, c in self.ordered(m)]
+            its = [unkey(k) for k, c in self.ordered(m)]
             m.items = {}
             return ('iter', IterObj(its))
         if seg in ('into_values',):
@@ -934,12 +1006,12 @@ class Interp:
             m.items = {}
             return ('iter', IterObj(its))
         if seg == 'drain':
-            its = [('tuple', [Cell(('key', k)), Cell(c.v)]) for k, c in self.ordered(m)]
+            its = [('tuple', [Cell(unkey(k)), Cell(c.v)]) for k, c in self.ordered(m)]
             m.items = {}
             return ('iter', IterObj(its))
         if seg == 'retain':
             for k, c in list(self.ordered(m)):
-                keep = self.truthy(self.call_closure(A[1], [('ref', Cell(('key', k))), ('ref', c)], depth))
+                keep = self.truthy(self.call_closure(A[1], [('ref', Cell(unkey(k))), ('ref', c)], depth))
                 if not keep:
                     del m.items[k]
             return UNIT
@@ -972,7 +1044,7 @@ class Interp:
                     elif seg == 'or_insert_with':
                         val = self.call_closure(A[1], [], depth)
                     elif seg == 'or_insert_with_key':
-                        val = self.call_closure(A[1], [('ref', Cell(('key', h[2])))], depth)
+                        val = self.call_closure(A[1], [('ref', Cell(unkey(h[2])))], depth)
                     else:
                         body, t = getattr(self, 'cur', (None, None))
                         ty = body.local_ty(t['dest']['l']) if body is not None else ''
@@ -982,7 +1054,7 @@ class Interp:
                     h[1].items[h[2]] = Cell(val)
                 return ('ref', h[1].items[h[2]])
             if seg == 'key':
-                return ('ref', Cell(('key', h[2])))
+                return ('ref', Cell(unkey(h[2])))
             if seg == 'insert_entry':
                 h[1].items[h[2]] = Cell(A[1])
                 return ('occ', h[1], h[2])
@@ -998,9 +1070,9 @@ class Interp:
             if seg == 'remove':
                 return m.items.pop(k).v
             if seg == 'remove_entry':
-                return ('tuple', [Cell(('key', k)), Cell(m.items.pop(k).v)])
+                return ('tuple', [Cell(unkey(k)), Cell(m.items.pop(k).v)])
             if seg == 'key':
-                return ('ref', Cell(('key', k)))
+                return ('ref', Cell(unkey(k)))
         if e[0] == 'vac':
             m, k = e[1], e[2]
             if seg == 'insert':
@@ -1010,7 +1082,7 @@ class Interp:
                 m.items[k] = Cell(A[1])
                 return ('occ', m, k)
             if seg in ('key', 'into_key'):
-                return ('ref', Cell(('key', k))) if seg == 'key' else ('key', k)
+                return ('ref', Cell(unkey(k))) if seg == 'key' else unkey(k)
         raise Unmodelled('%s is not modelled' % name)
 
     # ---- sequences ---------------------------------------------------------------------------------------------------
@@ -1026,8 +1098,8 @@ class Interp:
         if d[0] == 'map':
             m = d[1]
             if is_ref:
-                return IterObj([('tuple', [Cell(('ref', Cell(('key', k)))), Cell(('ref', c))]) for k, c in self.ordered(m)])
-            its = [('tuple', [Cell(('key', k)), Cell(c.v)]) for k, c in self.ordered(m)]
+                return IterObj([('tuple', [Cell(('ref', Cell(unkey(k)))), Cell(('ref', c))]) for k, c in self.ordered(m)])
+            its = [('tuple', [Cell(unkey(k)), Cell(c.v)]) for k, c in self.ordered(m)]
             m.items = {}
             return IterObj(its)
         if d[0] == 'adt' and d[1] == 'core::option::Option':
@@ -1035,7 +1107,7 @@ class Interp:
         if d[0] == 'arr':
             return IterObj([('ref', c) for c in d[1]] if is_ref else [c.v for c in d[1]])
         if d[0] == 'set':
-            return IterObj([('ref', Cell(('key', k))) for k in sorted(d[1])] if is_ref else [('key', k) for k in sorted(d[1])])
+            return IterObj([('ref', Cell(unkey(k))) for k in sorted(d[1])] if is_ref else [unkey(k) for k in sorted(d[1])])
         raise Unmodelled('iteration over %s' % d[0])
 
     def iter_next(self, it, depth):
